@@ -138,7 +138,7 @@ pub mod rust_decimal {
         pub fn checked_div(self, other: Decimal) -> (r: Option<Decimal>)
             ensures
                 other.val() == 0real ==> r is None,
-                r matches Some(v) ==> other.val() != 0real && v.val() * other.val() == self.val(),
+                r matches Some(v) ==> other.val() != 0real && v.val() * other.val() == self.val() && v.val() == self.val() / other.val(),
         { unimplemented!() }
 
         #[verifier::external_body]
@@ -201,7 +201,7 @@ pub mod rust_decimal {
     impl core::ops::Div for Decimal {
         type Output = Decimal;
         #[verifier::external_body]
-        fn div(self, rhs: Decimal) -> (r: Decimal) ensures r.val() * rhs.val() == self.val() { unimplemented!() }
+        fn div(self, rhs: Decimal) -> (r: Decimal) ensures r.val() * rhs.val() == self.val(), r.val() == self.val() / rhs.val() { unimplemented!() }
     }
     impl NegSpecImpl for Decimal {
         open spec fn obeys_neg_spec() -> bool { false }
